@@ -143,6 +143,99 @@ def series_payload_probes(rng, n, prop_kind):
                     same = (got == want) | (np.isnan(got) & np.isnan(want))
                     if not same.all() or list(cur.u) != ubefore:
                         problem = 'series write (%s at row %d) changed %r, expected %r' % (form, i, got.tolist(), want.tolist())
+                if problem is None and prop_kind == 'C04' and len(cur):
+                    # free-standing columns taken from the series column (2-D keys, series.window, one sample, a column
+                    # slice): writing into THEM through int / slice / index list / selection changes neither the series
+                    # column they were taken from nor any other column
+                    from datamatrix import series as srs
+                    c = sub.random()
+                    if c < 0.3:
+                        cur.s.depth = 4          # growing makes a padded copy,
+                        cur.s.depth = 3          # shrinking turns the buffer into a view on it
+                    elif c < 0.4:
+                        cur.s.depth = 4
+                    n_ = len(cur)
+                    d_ = cur.s.depth
+                    before = np.array(cur.s._seq, copy=True)
+                    others_before = (list(cur.u), list(cur.a), list(cur._rowid))
+                    s0, s1 = sorted(sub.sample(range(d_ + 1), 2))
+                    r0, r1 = sorted(sub.sample(range(n_ + 1), 2))
+                    rowlist = sorted(sub.sample(range(n_), sub.randint(1, n_)))
+                    form = sub.choice(['samples', 'samples', 'rows', 'block', 'window', 'window', 'full', 'rows_all_samples_list',
+                                       'rowlist', 'rowlist_samples', 'one_sample', 'col_slice', 'col_rows', 'step'])
+                    rows_of = list(range(n_))
+                    if form == 'samples':
+                        win = cur.s[:, s0:s1]
+                    elif form == 'rows':
+                        win, rows_of = cur.s[r0:r1, :], list(range(r0, r1))
+                    elif form == 'block':
+                        win, rows_of = cur.s[r0:r1, s0:s1], list(range(r0, r1))
+                    elif form == 'window':
+                        win = srs.window(cur.s, start=s0, end=s1)
+                    elif form == 'full':
+                        win = cur.s[:, :]
+                    elif form == 'rows_all_samples_list':
+                        win = cur.s[:, tuple(range(s0, s1))]
+                    elif form == 'rowlist':
+                        win, rows_of = cur.s[rowlist, :], rowlist
+                    elif form == 'rowlist_samples':
+                        win, rows_of = cur.s[rowlist, s0:s1], rowlist
+                    elif form == 'one_sample':
+                        win = cur.s[:, s0]
+                    elif form == 'col_slice':
+                        win, rows_of = cur.s[r0:r1], list(range(r0, r1))
+                    elif form == 'col_rows':
+                        win, rows_of = cur.s[rowlist], rowlist
+                    else:
+                        win, rows_of = cur.s[::2, ::2], list(range(0, n_, 2))
+                    trail.append('take:' + form)
+                    if win is cur.s:
+                        problem = 'col[%s] returned the column itself' % form
+                    elif len(win) != len(rows_of):
+                        problem = 'the column taken by %s has %d rows, expected %d' % (form, len(win), len(rows_of))
+                    elif len(win):
+                        wbefore = np.array(win._seq, copy=True)
+                        want = wbefore.copy()
+                        p = sub.randrange(len(win))
+                        how = sub.choice(['int', 'slice', 'list', 'sel', 'sel_table', 'sample'] if wbefore.ndim == 2
+                                         else ['int', 'slice', 'list', 'sel', 'sel_table'])
+                        trail.append('write:' + how)
+                        val = float(sub.randint(100, 999))
+                        if how == 'int':
+                            win[p] = val
+                            want[p] = val
+                        elif how == 'slice':
+                            win[p:] = val
+                            want[p:] = val
+                        elif how == 'list':
+                            ps = sorted(set([p, sub.randrange(len(win))]))
+                            win[ps] = val
+                            want[ps] = val
+                        elif how == 'sample':
+                            if wbefore.shape[1]:
+                                j = sub.randrange(wbefore.shape[1])
+                                win[p, j] = val
+                                want[p, j] = val
+                        else:
+                            # a selection of the table the window was taken from, holding rows of the window only
+                            ps = sorted(set([p, sub.randrange(len(win))]))
+                            sel = cur[[rows_of[q] for q in ps]] if how == 'sel_table' else (cur.u == cur.u[rows_of[p]])
+                            if how == 'sel':
+                                ps = [q for q in range(len(win)) if cur.u[rows_of[q]] == cur.u[rows_of[p]]]
+                            win[sel] = val
+                            want[ps] = val
+                        got = np.array(win._seq)
+                        if not np.array_equal(got, want, equal_nan=True):
+                            problem = 'the write into the taken column gave %r, expected %r' % (got.tolist(), want.tolist())
+                    if problem is None:
+                        after = np.array(cur.s._seq)
+                        if after.shape != before.shape or not np.array_equal(after, before, equal_nan=True):
+                            problem = ('writing into the free-standing column changed the series column it was taken from: '
+                                       '%r -> %r' % (before.tolist(), after.tolist()))
+                        elif others_before != (list(cur.u), list(cur.a), list(cur._rowid)):
+                            problem = 'writing into the free-standing column changed another column of the table'
+                        elif cur.s.dm is not cur or cur.s.depth != d_:
+                            problem = 'the series column was detached / changed its depth'
                 if problem is None and consistent(dm):
                     problem = 'the source table changed: ' + consistent(dm)
             except Exception as e:      # noqa: BLE001
@@ -156,8 +249,11 @@ def series_payload_probes(rng, n, prop_kind):
 
 
 def series_default_probes(rng, n):
-    """C07 for series columns of either default: rows appended by a resize hold the column's own empty value in every
-    sample (NaN, or 0 for defaultnan=False), the first rows stay, also after the depth was changed and on derived tables."""
+    """C01 / C07 for series columns of either default: rows appended by a resize, or padded in by a << b where b lacks
+    the column (b a table, a dict or a Row), hold the column's own empty value in every sample (NaN, or 0 for
+    defaultnan=False) exactly as on a freshly built table, the first rows stay; on the table itself and on tables derived
+    from it by ANY deriving operation (selection, slice, index list, sort, shuffle, sample, merge, row deletion, shrink,
+    earlier grow, depth change, concatenation)."""
     world._imports()
     from datamatrix import DataMatrix, SeriesColumn, operations as ops
     import numpy as np
@@ -167,21 +263,31 @@ def series_default_probes(rng, n):
         random.seed(sub.randrange(1 << 30))
         problem = None
         trail = []
+        dnan = None
         with warnings.catch_warnings():
             warnings.simplefilter('ignore')
             try:
                 m = sub.randint(2, 6)
-                dnan = sub.random() < 0.5
+                dnan = sub.random() < 0.4
                 d0 = sub.randint(1, 4)
                 dm = DataMatrix(length=m)
                 dm.u = list(range(1, m + 1))
                 dm.s = SeriesColumn(depth=d0, defaultnan=dnan)
+                unset = sub.randrange(m) if sub.random() < 0.3 else -1      # one row keeps the value it was created with
                 for i in range(m):
-                    dm.s[i] = [float(i + 1)] * d0
+                    if i != unset:
+                        dm.s[i] = [float(i + 1)] * d0
+                empty = (lambda a: np.isnan(a).all()) if dnan else (lambda a: (a == 0).all())
+                if unset >= 0 and not empty(np.array(dm.s._seq)[unset]):
+                    problem = 'the unassigned row of a fresh column holds %r' % (np.array(dm.s._seq)[unset].tolist(),)
                 cur = dm
                 for _ in range(sub.randint(0, 3)):
-                    op = sub.choice(['select', 'sort', 'shuffle', 'depth', 'slice'])
+                    if problem:
+                        break
+                    op = sub.choice(['select', 'sort', 'shuffle', 'depth', 'slice', 'rows', 'sample', 'merge', 'delrow',
+                                     'shrink', 'grow', 'concat_self'])
                     trail.append(op)
+                    n_ = len(cur)
                     if op == 'select':
                         cur = cur.u >= sub.randint(0, 2)
                     elif op == 'sort':
@@ -190,24 +296,73 @@ def series_default_probes(rng, n):
                         cur = ops.shuffle(cur)
                     elif op == 'slice':
                         cur = cur[sub.randint(0, 1):]
+                    elif op == 'rows':
+                        if n_:
+                            cur = cur[sub.sample(range(n_), sub.randint(1, n_))]
+                    elif op == 'sample':
+                        cur = ops.random_sample(cur, sub.randint(0, n_))
+                    elif op == 'merge':
+                        other = cur.u != sub.randint(1, 4)
+                        cur = sub.choice([lambda: cur & other, lambda: cur | other, lambda: other | cur,
+                                          lambda: cur ^ (cur.u > 2)])()
+                    elif op == 'delrow':
+                        if n_:
+                            del cur[sub.randrange(n_)]
+                    elif op == 'shrink':
+                        if n_:
+                            cur.length = sub.randint(0, n_ - 1)
+                    elif op == 'grow':
+                        cur.length = n_ + 1
+                        if not empty(np.array(cur.s._seq)[n_]):
+                            problem = 'the appended row holds %r' % (np.array(cur.s._seq)[n_].tolist(),)
+                    elif op == 'concat_self':
+                        cur = cur << cur[:1]
                     else:
                         cur.s.depth = sub.randint(1, 5)
-                n0 = len(cur)
-                before = np.array(cur.s._seq, copy=True)
-                extra = sub.randint(1, 3)
-                cur.length = n0 + extra
-                trail.append('grow')
-                got = np.array(cur.s._seq)
-                if got.shape != (n0 + extra, before.shape[1]):
-                    problem = 'shape %r after growing %r by %d rows' % (got.shape, before.shape, extra)
-                elif not np.array_equal(got[:n0], before, equal_nan=True):
-                    problem = 'the first rows changed: %r -> %r' % (before.tolist(), got[:n0].tolist())
-                elif dnan and not np.isnan(got[n0:]).all():
-                    problem = 'appended rows of a NaN-default series hold %r' % (got[n0:].tolist(),)
-                elif not dnan and not (got[n0:] == 0).all():
-                    problem = 'appended rows of a zero-default series hold %r' % (got[n0:].tolist(),)
-                elif cur.s.dm is not cur or len(cur.s) != len(cur):
-                    problem = 'series column detached or of wrong length after the resize'
+                if problem is None:
+                    n0 = len(cur)
+                    before = np.array(cur.s._seq, copy=True)
+                    ubefore = list(cur.u)
+                    extra = sub.randint(1, 3)
+                    how = sub.choice(['grow', 'grow', 'concat_table', 'concat_dict', 'concat_row', 'concat_empty_left'])
+                    trail.append(how)
+                    if how == 'grow':
+                        cur.length = n0 + extra
+                        res = cur
+                    else:
+                        other = DataMatrix(length=extra)
+                        other.u = 0
+                        other.w = 'w'
+                        if how == 'concat_table':
+                            res = cur << other
+                        elif how == 'concat_dict':
+                            res = cur << {'u': [0] * extra, 'w': ['w'] * extra}
+                        elif how == 'concat_row':
+                            extra = 1
+                            res = cur << other[0]
+                        else:
+                            # the table that lacks the column on the LEFT: its rows are padded
+                            res = other << cur
+                        if len(cur) != n0 or not np.array_equal(np.array(cur.s._seq), before, equal_nan=True):
+                            problem = 'the operand of << changed'
+                    got = np.array(res.s._seq)
+                    old, new = (got[:n0], got[n0:]) if how != 'concat_empty_left' else (got[extra:], got[:extra])
+                    if problem:
+                        pass
+                    elif got.shape != (n0 + extra, before.shape[1]) or len(res) != n0 + extra:
+                        problem = 'shape %r after adding %d rows to %r' % (got.shape, extra, before.shape)
+                    elif not np.array_equal(old, before, equal_nan=True):
+                        problem = 'the rows that were there changed: %r -> %r' % (before.tolist(), old.tolist())
+                    elif dnan and not np.isnan(new).all():
+                        problem = 'new rows of a NaN-default series hold %r' % (new.tolist(),)
+                    elif not dnan and not (new == 0).all():
+                        problem = 'new rows of a zero-default series hold %r' % (new.tolist(),)
+                    elif res.s.dm is not res or len(res.s) != len(res):
+                        problem = 'series column detached or of wrong length after the resize'
+                    elif [x for x in res.u if x not in (0, '')] != [x for x in ubefore if x not in (0, '')]:
+                        problem = 'column u reads %r, was %r' % (list(res.u), ubefore)
+                    elif [[float(x) for x in row.s] for row in res] != [[float(x) for x in r_] for r_ in got] and not dnan:
+                        problem = 'read row-wise the series column gives other cells than read column-wise'
             except Exception as e:      # noqa: BLE001
                 problem = 'raised %r' % (e,)
         if problem:
@@ -215,6 +370,182 @@ def series_default_probes(rng, n):
         out.append({'input': {'probe': 'series_default', 'seed': k}, 'observed': {'problem': problem, 'ops': trail},
                     'pyfail': problem, 'oracle': 'true', 'model': 'true', 'nontrivial': True,
                     'sig': 'probe|series_default|%d' % k, 'tags': ['probe', 'probe:series_default']})
+    return out
+
+
+def resize_positional_probes(rng, n):
+    """C07 outside the Coq model (Python side only): (a) a table in which a row occurs more than once (dm[[0, 2, 2, 4, 2]],
+    resampling with replacement; duplicate row ids are outside the model): shrinking keeps the first n rows BY POSITION,
+    growing appends default rows with fresh identities, the source is untouched; (b) the new length given as a NumPy
+    integer (np.int64(k), mask.sum(), arr[-1], unsigned and narrow types) on empty (new, shrunk to zero, empty selection /
+    intersection) and non-empty tables, in both directions: exactly what the Python int gives on an identically built twin."""
+    world._imports()
+    from datamatrix import DataMatrix, FloatColumn, IntColumn, SeriesColumn, operations as ops
+    import numpy as np
+    out = []
+
+    def norm(v):
+        if isinstance(v, float) and v != v:
+            return 'nan'
+        if isinstance(v, (np.floating, np.integer)):
+            return norm(v.item())
+        return v
+
+    def read(t):
+        return [(norm(a), norm(f), norm(i), tuple(norm(float(x)) for x in s)) for a, f, i, s in zip(t.a, t.f, t.i, t.s)]
+
+    def build(m, dnan):
+        dm = DataMatrix(length=m)
+        dm.a = ['x%d' % i for i in range(m)]
+        dm.f = FloatColumn
+        dm.f = [i + .5 for i in range(m)]
+        dm.i = IntColumn
+        dm.i = [i + 10 for i in range(m)]
+        dm.s = SeriesColumn(depth=2, defaultnan=dnan)
+        for i in range(m):
+            dm.s[i] = [i, i + .25]
+        return dm
+
+    def structure(t, n_):
+        ids = [int(r) for r in t._rowid]
+        if len(t) != n_ or len(ids) != n_:
+            return 'the table has %d rows (%d row ids), expected %d' % (len(t), len(ids), n_)
+        for name, col in t.columns:
+            if col.dm is not t:
+                return 'column %s is not owned by the table' % name
+            if len(col) != n_ or len(col._seq) != n_:
+                return 'column %s has %d cells, the table %d rows' % (name, len(col._seq), n_)
+            if [int(r) for r in col._rowid] != ids:
+                return 'column %s carries the row ids %r, the table %r' % (name, [int(r) for r in col._rowid], ids)
+        return None
+    for k in range(n):
+        sub = random.Random(rng.randrange(1 << 30))
+        kind = sub.choice(['resize_repeated_rows', 'resize_numpy_length'])
+        problem = None
+        trail = []
+        with warnings.catch_warnings():
+            warnings.simplefilter('ignore')
+            try:
+                dnan = sub.random() < 0.7
+                default = ('', 'nan', 0, ('nan', 'nan') if dnan else (0.0, 0.0))
+                if kind == 'resize_repeated_rows':
+                    m = sub.randint(3, 8)
+                    dm = build(m, dnan)
+                    src = read(dm)
+                    idx = [sub.randrange(m) for _ in range(sub.randint(2, 8))]
+                    for _ in range(sub.randint(1, 3)):
+                        idx.insert(sub.randrange(len(idx) + 1), sub.choice(idx))       # rows that occur twice or more
+                    bs = dm[idx]
+                    trail.append('dm[%r]' % (idx,))
+                    model = [src[i] for i in idx]
+                    if read(bs) != model:
+                        problem = 'reads %r, expected %r' % (read(bs), model)
+                    for e in range(sub.randint(0, 3)):          # per-row edits, by position
+                        if problem:
+                            break
+                        p = sub.randrange(len(bs))
+                        a, f, i, s = model[p]
+                        c = sub.choice('afis')
+                        if c == 'a':
+                            bs.a[p] = a = 'e%d' % e
+                        elif c == 'f':
+                            bs.f[p] = f = 100.5 + e
+                        elif c == 'i':
+                            bs.i[p] = i = 900 + e
+                        else:
+                            bs.s[p] = s = (50.0 + e, 60.0 + e)
+                        model[p] = (a, f, i, s)
+                        trail.append('%s[%d]=..' % (c, p))
+                        if read(bs) != model:
+                            problem = 'after the edit the table reads %r, expected %r' % (read(bs), model)
+                    for _ in range(sub.randint(1, 4)):
+                        if problem:
+                            break
+                        n0 = len(bs)
+                        old_ids = [int(r) for r in bs._rowid]
+                        c = sub.random()
+                        n1 = sub.randint(0, max(0, n0 - 1)) if c < 0.6 else (n0 + sub.randint(1, 3) if c < 0.9 else n0)
+                        bs.length = n1
+                        trail.append('length=%d' % n1)
+                        model = model[:n1] + [default] * (n1 - n0)
+                        ids = [int(r) for r in bs._rowid]
+                        problem = structure(bs, n1)
+                        if problem is None and read(bs) != model:
+                            problem = 'reads %r, expected the first rows by position and default rows: %r' % (read(bs), model)
+                        elif problem is None and ids[:min(n0, n1)] != old_ids[:min(n0, n1)]:
+                            problem = 'the kept rows changed their identities: %r -> %r' % (old_ids, ids)
+                        elif problem is None and n1 > n0 and (len(set(ids[n0:])) != n1 - n0 or set(ids[n0:]) & set(old_ids)):
+                            problem = 'the appended rows have the identities %r next to %r' % (ids[n0:], old_ids)
+                    if problem is None and (read(dm) != src or structure(dm, m)):
+                        problem = 'the source table changed'
+                else:
+                    state = sub.choice(['fresh', 'no_rows', 'shrunk_to_zero', 'empty_selection', 'empty_intersection',
+                                        'selection', 'sorted', 'sliced', 'grown_from_zero'])
+                    m = sub.randint(1, 6)
+
+                    def twin():
+                        t = build(0 if state == 'no_rows' else m, dnan)
+                        if state == 'shrunk_to_zero':
+                            t.length = 0
+                        elif state == 'empty_selection':
+                            t = t.i > 100
+                        elif state == 'empty_intersection':
+                            t = (t.i < 11) & (t.i > 12)
+                        elif state == 'selection':
+                            t = t.i != 10 + m // 2
+                        elif state == 'sorted':
+                            t = ops.sort(t, by=t.f)[::-1]
+                        elif state == 'sliced':
+                            t = t[1:]
+                        elif state == 'grown_from_zero':
+                            t.length = 0
+                            t.length = 2
+                        return t
+                    t1, t2 = twin(), twin()
+                    trail.append(state)
+                    ints = [np.int64, np.int32, np.int16, np.int8, np.intp, np.uint8, np.uint16, np.uint32, np.uint64,
+                            lambda v: (np.arange(v + 3) <= v - 1).sum(), lambda v: np.arange(v + 1)[-1],
+                            lambda v: np.array([v, 0])[0], lambda v: np.int64(v) + np.int64(0)]
+                    for _ in range(sub.randint(1, 3)):
+                        if problem:
+                            break
+                        n0 = len(t1)
+                        c = sub.random()
+                        n1 = sub.randint(0, max(0, n0 - 1)) if c < 0.35 else (n0 + sub.randint(1, 4) if c < 0.9 else n0)
+                        T = sub.choice(ints)
+                        v = T(n1)
+                        trail.append('length=%s(%d)' % (type(v).__name__, n1))
+                        if isinstance(v, int) or int(v) != n1:
+                            problem = 'probe: %r is not a NumPy integer of value %d' % (v, n1)
+                            break
+                        t1.length = n1
+                        try:
+                            t2.length = v
+                        except Exception as e:      # noqa: BLE001
+                            problem = 'dm.length = %s(%d) on a table of %d rows raised %r; the int %d is accepted' % (
+                                type(v).__name__, n1, n0, e, n1)
+                            break
+                        problem = structure(t2, n1) or structure(t1, n1)
+                        if problem is None and (read(t2) != read(t1) or [int(r) for r in t2._rowid] != [int(r) for r in t1._rowid]):
+                            problem = 'with %s(%d) the table reads %r (ids %r), with the int %r (ids %r)' % (
+                                type(v).__name__, n1, read(t2), list(t2._rowid), read(t1), list(t1._rowid))
+                        elif problem is None and n1 > n0 and read(t2)[n0:] != [default] * (n1 - n0):
+                            problem = 'the appended rows read %r' % (read(t2)[n0:],)
+                        elif problem is None and len(set(int(r) for r in t2._rowid)) != n1:
+                            problem = 'row identities %r are not distinct' % (list(t2._rowid),)
+                    if problem is None and len(t2):
+                        # the resized table works: its new rows can be selected and written, alone
+                        for t in (t1, t2):
+                            t.a[t.i == 0] = 'v'
+                        if read(t2) != read(t1) or structure(t2, len(t1)):
+                            problem = 'after writing through a selection of the new rows: %r, expected %r' % (read(t2), read(t1))
+            except Exception as e:      # noqa: BLE001
+                problem = 'raised %r' % (e,)
+        if problem:
+            problem = '%s after %s: %s' % (kind, ' / '.join(trail), problem)
+        out.append({'input': {'probe': kind, 'seed': k}, 'observed': {'problem': problem, 'ops': trail},
+                    'pyfail': problem, 'oracle': 'true', 'model': 'true', 'nontrivial': True,
+                    'sig': 'probe|%s|%d' % (kind, k), 'tags': ['probe', 'probe:' + kind]})
     return out
 
 
@@ -274,9 +605,17 @@ class ProbeMixin:
 
     def rerun(self, inp):
         if 'probe' in inp:
-            cases = [c for c in self.direct_probes(random.Random(inp.get('seed', 0)), 80) if c['input']['probe'] == inp['probe']]
-            bad = [c for c in cases if c['pyfail']]
-            return (bad or cases or [None])[0]
+            # the probe families draw their parameters from the rng: replay runs the family of that name again (more
+            # draws when the first batch holds no failing member) and returns a failing member if there is one
+            rng = random.Random(inp.get('seed', 0))
+            seen = []
+            for n in (80, 400):
+                cases = [c for c in self.direct_probes(rng, n) if c['input']['probe'] == inp['probe']]
+                bad = [c for c in cases if c['pyfail']]
+                if bad:
+                    return bad[0]
+                seen = seen or cases
+            return (seen or [None])[0]
         return HistProp.rerun(self, inp)
 
     def key(self, case):
@@ -309,7 +648,11 @@ class C03(ProbeMixin, HistProp):
     trusted_base = CORE_TRUST
     assumptions = CORE_ASSUME + ['operands that name a row twice (index lists with a repeated index) are outside the Coq '
                                  'model (duplicate row ids); the each-row-once / commutative-membership clauses are '
-                                 'probed for them on the Python side']
+                                 'probed for them on the Python side',
+                                 'relatives whose series depths differ (out of model): operands-unchanged is probed on the '
+                                 'Python side for & | ^ in both orders, refused or not; tables unpickled from ANOTHER '
+                                 'process (table numbers restart at 0 there) are probed against local tables created '
+                                 'before and after the loading, here and in a fresh process (Python side, subprocesses)']
 
     def generate(self, rng, tier):
         return super().generate(rng, tier) + self.direct_probes(rng, 40 if tier == 'quick' else 400)
@@ -403,6 +746,251 @@ class C03(ProbeMixin, HistProp):
             out.append({'input': {'probe': 'selection_read', 'seed': k}, 'observed': {'problem': problem},
                         'pyfail': problem, 'oracle': 'true', 'model': 'true', 'nontrivial': True,
                         'sig': 'probe|selection_read|%d' % k, 'tags': ['probe', 'probe:selection_read']})
+        out.extend(self.series_depth_operand_probes(rng, max(12, n // 2)))
+        out.extend(self.foreign_pickle_probes(rng))
+        return out
+
+    def series_depth_operand_probes(self, rng, n):
+        """Relatives of one source whose SeriesColumn had its depth changed in one (or both) of them, then a | b, a & b,
+        a ^ b in both orders: whether or not the merge is refused (relatives of different depth: NumPy refuses), both
+        operands read exactly as before (depth, buffer shape, cells, row ids, owner); when the depths agree the merge
+        must succeed with the left-biased cells."""
+        world._imports()
+        from datamatrix import DataMatrix, SeriesColumn, operations as ops
+        import numpy as np
+        out = []
+        for k in range(n):
+            sub = random.Random(rng.randrange(1 << 30))
+            problem = None
+            desc = ''
+            with warnings.catch_warnings():
+                warnings.simplefilter('ignore')
+                try:
+                    random.seed(sub.randrange(1 << 30))
+                    m = sub.randint(9, 14)
+                    d0 = sub.randint(2, 4)
+                    dm = DataMatrix(length=m)
+                    dm.a = ['r%d' % i for i in range(m)]
+                    dm.s = SeriesColumn(depth=d0, defaultnan=sub.random() < 0.8)
+                    for i in range(m):
+                        dm.s[i] = [i + j / 8. for j in range(d0)]
+
+                    def relative():
+                        c = sub.choice(['slice', 'tail', 'rows', 'select', 'sort', 'shuffle', 'all'])
+                        if c == 'slice':
+                            return dm[:sub.randint(0, m)], c
+                        if c == 'tail':
+                            return dm[sub.randint(0, m - 1):], c
+                        if c == 'rows':
+                            return dm[sub.sample(range(m), sub.randint(1, m))], c
+                        if c == 'select':
+                            return dm.a != 'r%d' % sub.randrange(m), c
+                        if c == 'sort':
+                            return ops.sort(dm, by=dm.a)[::2], c
+                        if c == 'shuffle':
+                            return ops.shuffle(dm)[:sub.randint(1, m)], c
+                        return dm[:], c
+                    (a, ka), (b, kb) = relative(), relative()
+                    mode = sub.choice(['a', 'a', 'b', 'b', 'both_same', 'both_diff', 'back'])
+                    others = [d for d in range(1, 6) if d != d0]
+                    da = db = d0
+                    if mode == 'a':
+                        da = sub.choice(others)
+                    elif mode == 'b':
+                        db = sub.choice(others)
+                    elif mode == 'both_same':
+                        da = db = sub.choice(others)
+                    elif mode == 'both_diff':
+                        da, db = sub.sample(others, 2)
+                    else:                       # changed and changed back: the buffer is a view / a padded copy
+                        a.s.depth = sub.choice(others)
+                    a.s.depth = da
+                    b.s.depth = db
+                    if sub.random() < 0.5 and len(a):
+                        a.s[sub.randrange(len(a)), 0] = -1.0        # the relatives hold different cells for one row
+                    desc = 'a = %s of %d rows (depth %d -> %d), b = %s (depth -> %d)' % (ka, m, d0, da, kb, db)
+
+                    def snap(t):
+                        return (list(t._rowid), list(t.a), t.s.depth, tuple(t.s._seq.shape), repr(np.array(t.s._seq).tolist()),
+                                repr([np.array(c_).tolist() for c_ in t.s]), t.s.dm is t, list(t.s._rowid), len(t), t.s.defaultnan)
+
+                    def cells(t):
+                        return {rid: (nm, repr(np.array(c_).tolist())) for rid, nm, c_ in zip(t._rowid, t.a, t.s)}
+                    ops_ = {'|': (lambda x, y: x | y, lambda p, q: p | q), '&': (lambda x, y: x & y, lambda p, q: p & q),
+                            '^': (lambda x, y: x ^ y, lambda p, q: p ^ q)}
+                    for sym, (f, fs) in sorted(ops_.items()):
+                        for x, y, nm in ((a, b, 'a %s b' % sym), (b, a, 'b %s a' % sym)):
+                            bx, by = snap(x), snap(y)
+                            cx, cy = cells(x), cells(y)
+                            try:
+                                r = f(x, y)
+                                raised = None
+                            except Exception as e:      # noqa: BLE001
+                                raised = e
+                            ax, ay = snap(x), snap(y)
+                            if (ax, ay) != (bx, by):
+                                which = 'left' if ax != bx else 'right'
+                                o, n_ = (bx, ax) if ax != bx else (by, ay)
+                                problem = problem or ('%s (%s) changed its %s operand: depth %r -> %r, buffer %r -> %r, cells %s -> %s'
+                                                      % (nm, 'refused with %r' % (raised,) if raised else 'accepted', which,
+                                                         o[2], n_[2], o[3], n_[3], o[4][:120], n_[4][:120]))
+                            if raised is not None:
+                                if da == db:
+                                    problem = problem or '%s of relatives of equal depth raised %r' % (nm, raised)
+                                continue
+                            want = sorted(fs(set(cx), set(cy)))
+                            if list(r._rowid) != want or list(r.a) != ['r%d' % i for i in want]:
+                                problem = problem or '%s holds the rows %r, expected %r' % (nm, list(r._rowid), want)
+                            elif da == db and cells(r) != {i: (cx[i] if i in cx else cy[i]) for i in want}:
+                                problem = problem or '%s: series cells %r, the operands hold %r and %r' % (nm, cells(r), cx, cy)
+                except Exception as e:      # noqa: BLE001
+                    problem = 'probe raised %r' % (e,)
+            if problem:
+                problem = 'series relatives, %s: %s' % (desc, problem)
+            out.append({'input': {'probe': 'series_depth_operands', 'seed': k}, 'observed': {'problem': problem},
+                        'pyfail': problem, 'oracle': 'true', 'model': 'true', 'nontrivial': True,
+                        'sig': 'probe|series_depth_operands|%d' % k, 'tags': ['probe', 'probe:series_depth_operands']})
+        return out
+
+    FOREIGN_BUILDER = r'''
+import sys, pickle, warnings
+warnings.simplefilter('ignore')
+from datamatrix import DataMatrix, FloatColumn
+path, k1, lo, hi = sys.argv[1], int(sys.argv[2]), int(sys.argv[3]), int(sys.argv[4])
+# tables are numbered by a per-process counter: a dense run of fresh tables from the start of this process, and (when
+# asked for) a second run that covers the numbers lo..hi which the loading process has given to its own tables
+tables = [DataMatrix(length=6) for _ in range(k1)]
+if lo >= 0:
+    while True:
+        t = DataMatrix(length=0)
+        if t._id >= lo - 1:
+            break
+    while True:
+        t = DataMatrix(length=6)
+        tables.append(t)
+        if t._id >= hi:
+            break
+pairs = []
+for k, t in enumerate(tables):
+    t.payload = ['foreign%03d_%d' % (k, i) for i in range(6)]
+    t.x = FloatColumn
+    t.x = range(6)
+    pairs.append((t, t.x >= 2))
+with open(path, 'wb') as f:
+    pickle.dump(pairs, f, protocol=int(sys.argv[5]))
+'''
+
+    FOREIGN_CHECK = r'''
+def make_locals(n):
+    import warnings
+    from datamatrix import DataMatrix, FloatColumn
+    out = []
+    with warnings.catch_warnings():
+        warnings.simplefilter('ignore')
+        tables = [DataMatrix(length=6) for _ in range(n)]
+        for j, t in enumerate(tables):
+            t.payload = ['mine%03d_%d' % (j, i) for i in range(6)]
+            t.x = FloatColumn
+            t.x = range(6)
+            out.append((t, t.x < 4))
+    return out
+
+
+def check_unrelated(locals_, foreign):
+    """every combination of a local table (or its selection) with a foreign one (or its selection) must raise"""
+    import warnings
+    bad = []
+    with warnings.catch_warnings():
+        warnings.simplefilter('ignore')
+        for k, (ft, fsel) in enumerate(foreign):
+            if list(ft.payload) != ['foreign%03d_%d' % (k, i) for i in range(6)] or len(fsel) != 4:
+                bad.append('foreign table %d reads %r after loading' % (k, list(ft.payload)))
+        for j, (mine, sel) in enumerate(locals_):
+            for k, (ft, fsel) in enumerate(foreign):
+                attempts = [
+                    ('mine | foreign', lambda: mine | ft), ('foreign | mine', lambda: ft | mine),
+                    ('mine & foreign', lambda: mine & ft), ('mine ^ foreign', lambda: mine ^ ft),
+                    ('sel | fsel', lambda: sel | fsel), ('fsel & sel', lambda: fsel & sel), ('fsel ^ mine', lambda: fsel ^ mine),
+                    ('mine.payload[fsel]', lambda: mine.payload[fsel]), ('mine.x[foreign]', lambda: mine.x[ft]),
+                    ('foreign.payload[sel]', lambda: ft.payload[sel]), ('fsel.x[mine]', lambda: fsel.x[mine]),
+                ]
+                for label, f in attempts:
+                    try:
+                        res = f()
+                    except Exception:
+                        continue
+                    got = list(res.payload) if hasattr(res, 'payload') else list(res)
+                    bad.append('%s (local table %d, a table unpickled from another process %d) did not raise but gave %r'
+                               % (label, j, k, got))
+    return bad
+'''
+
+    def foreign_pickle_probes(self, rng):
+        """Unrelated tables that were built and pickled by ANOTHER process (where tables are numbered from 0 again) and
+        are loaded (a) here, next to local tables that were created before (the foreign process was asked to reach the
+        numbers of these) and after the loading, and (b) in a fresh process next to its own first tables: every
+        combination local x foreign through & | ^ and col[selection] must raise."""
+        import json
+        import os
+        import pickle
+        import shutil
+        import subprocess
+        import sys
+        import framework as fw
+        world._imports()
+        out = []
+        problems = {'here': None, 'fresh': None}
+        d = os.path.join(fw.WORK, 'core-foreign-%d' % os.getpid())
+        try:
+            os.makedirs(d, exist_ok=True)
+            ns = {}
+            exec(compile(self.FOREIGN_CHECK, 'foreign_check', 'exec'), ns)
+            n_local = rng.randint(3, 6)
+            locals_ = ns['make_locals'](n_local)
+            lo, hi = min(t._id for t, _s in locals_), max(t._id for t, _s in locals_)
+            if lo > 400000:         # too far to count up to in the other process: (b) still covers the collision
+                lo = hi = -1
+            k1 = rng.randint(20, 40)
+            protocol = rng.choice([2, pickle.HIGHEST_PROTOCOL])
+            path = os.path.join(d, 'foreign.pkl')
+            env = dict(os.environ, PYTHONPATH=fw.REPO + os.pathsep + os.path.join(fw.VERIF, 'shim'), PYTHONHASHSEED='0',
+                       PYTHONWARNINGS='ignore')
+            pr = subprocess.run([sys.executable, '-c', self.FOREIGN_BUILDER, path, str(k1), str(lo), str(hi), str(protocol)],
+                                capture_output=True, text=True, env=env, timeout=300)
+            if pr.returncode != 0 or not os.path.exists(path):
+                problems['here'] = problems['fresh'] = 'building the foreign pickles failed: %s' % pr.stderr.strip()[-500:]
+            else:
+                try:
+                    with warnings.catch_warnings():
+                        warnings.simplefilter('ignore')
+                        with open(path, 'rb') as f:
+                            foreign = pickle.load(f)
+                    later = ns['make_locals'](2)
+                    bad = ns['check_unrelated'](locals_ + later, foreign)
+                    if bad:
+                        problems['here'] = '%s (%d combinations in total)' % (bad[0], len(bad))
+                except Exception as e:      # noqa: BLE001
+                    problems['here'] = 'probe raised %r' % (e,)
+                script = self.FOREIGN_CHECK + (
+                    '\nimport sys, json, pickle, warnings\nwarnings.simplefilter("ignore")\n'
+                    'mine = make_locals(%d)\nforeign = pickle.load(open(sys.argv[1], "rb"))\n'
+                    'print(json.dumps(check_unrelated(mine + make_locals(2), foreign)))\n' % rng.randint(3, 12))
+                pr = subprocess.run([sys.executable, '-c', script, path], capture_output=True, text=True, env=env, timeout=300)
+                try:
+                    bad = json.loads(pr.stdout.strip().splitlines()[-1])
+                    if bad:
+                        problems['fresh'] = 'in a fresh process: %s (%d combinations in total)' % (bad[0], len(bad))
+                except Exception:       # noqa: BLE001
+                    problems['fresh'] = 'the fresh loading process failed: %s' % (pr.stderr.strip()[-500:] or pr.stdout[-300:],)
+        except Exception as e:      # noqa: BLE001
+            problems['here'] = problems['here'] or 'probe raised %r' % (e,)
+        finally:
+            shutil.rmtree(d, ignore_errors=True)
+        for where in ('here', 'fresh'):
+            problem = problems[where]
+            out.append({'input': {'probe': 'foreign_pickle', 'seed': 0, 'where': where}, 'observed': {'problem': problem},
+                        'pyfail': problem, 'oracle': 'true', 'model': 'true', 'nontrivial': True,
+                        'sig': 'probe|foreign_pickle|%s' % where, 'tags': ['probe', 'probe:foreign_pickle']})
         return out
 
 
@@ -420,7 +1008,9 @@ class C04(ProbeMixin, HistProp):
             'and concatenations; full table diff against Spec.step after every write and all other pool members via '
             'the frame check; distinct by (ops, seed)')
     trusted_base = CORE_TRUST
-    assumptions = CORE_ASSUME + ['Series payloads: (row, sample) / row / slice / selection writes are probed on the Python side']
+    assumptions = CORE_ASSUME + ['Series payloads: (row, sample) / row / slice / selection writes are probed on the Python side, '
+                                 'as are writes (int / slice / index list / selection / sample) into free-standing columns '
+                                 'taken from a series column by 2-D keys, series.window, one sample or a column slice']
 
     def generate(self, rng, tier):
         return super().generate(rng, tier) + self.direct_probes(rng, 60 if tier == 'quick' else 600)
@@ -442,14 +1032,15 @@ class C06(ProbeMixin, HistProp):
             'plus audits on the implementation: A1 no pre-existing row-id object is mutated in place, A2 no column '
             'object, cell storage or buffer is shared between two DataMatrix objects / columns; the owner pointer and '
             'name of every column are probed after every step. keep_only/setcol/map_/filter_/arithmetic/replace/'
-            'unpickling are covered by the extra direct probes of this module')
+            'unpickling / comparisons that match every or no row whatever the cells are covered by the extra direct probes '
+            'of this module')
     trusted_base = CORE_TRUST
     assumptions = CORE_ASSUME + ['cross-object sharing is outside a by-value model: theorem = frame property of the '
                                  'model; implementation side = audits A1-A2 and mutation probes']
 
     def generate(self, rng, tier):
         cases = super().generate(rng, tier)
-        cases.extend(self.direct_probes(rng, 200 if tier == 'quick' else 1500))
+        cases.extend(self.direct_probes(rng, 340 if tier == 'quick' else 2500))
         return cases
 
     def direct_probes(self, rng, n):
@@ -502,6 +1093,36 @@ class C06(ProbeMixin, HistProp):
             'memoized_hit': lambda dm: _memo_pair(dm)[1],
             'memoized_first': lambda dm: _memo_pair(dm)[0],
             'sort_already_sorted_mixed': lambda dm: ops.sort(dm, by=dm.f),
+            # comparisons whose answer does not depend on the cells (the value cannot be converted to the column's
+            # type, is a type, a set, a function, NaN): every row or no row matches, the result is still a NEW table
+            'int_ne_empty': lambda dm: dm.i != '',
+            'int_ne_none': lambda dm: dm.i != None,             # noqa: E711
+            'int_ne_str': lambda dm: dm.i != 'x',
+            'int_eq_empty': lambda dm: dm.i == '',
+            'int_eq_none': lambda dm: dm.i == None,             # noqa: E711
+            'int_eq_str': lambda dm: dm.i == 'abc',
+            'int_ne_nan': lambda dm: dm.i != float('nan'),
+            'int_eq_type': lambda dm: dm.i == int,
+            'int_ne_type': lambda dm: dm.i != str,
+            'int_ne_set': lambda dm: dm.i != {77},
+            'int_eq_set_all': lambda dm: dm.i == {0, 1, 2, 3},
+            'int_ne_fn': lambda dm: dm.i != (lambda x: False),
+            'int_ge_all': lambda dm: dm.i >= -1,
+            'float_ne_empty': lambda dm: dm.f != '',
+            'float_ne_none': lambda dm: dm.f != None,           # noqa: E711
+            'float_ne_str': lambda dm: dm.f != 'x',
+            'float_eq_str': lambda dm: dm.f == 'x',
+            'float_ne_nan': lambda dm: dm.f != float('nan'),
+            'float_eq_type': lambda dm: dm.f == float,
+            'float_ne_set': lambda dm: dm.f != {77.0},
+            'float_eq_self': lambda dm: dm.f == dm.f,
+            'mixed_ne_str': lambda dm: dm.a != 'zz',
+            'mixed_ne_none': lambda dm: dm.a != None,           # noqa: E711
+            'mixed_ne_empty': lambda dm: dm.a != '',
+            'mixed_eq_str': lambda dm: dm.a == 'zz',
+            'mixed_ne_number': lambda dm: dm.a != 7,
+            'mixed_ne_type': lambda dm: dm.a != float,
+            'mixed_ne_set': lambda dm: dm.a != {'q'},
         }
 
         def _aug(c, o, x):
@@ -633,13 +1254,16 @@ class C07(ProbeMixin, HistProp):
             'Spec.step (first rows kept, default cells, fresh ids) and inv_b (ownership, caches, one cell per row) '
             'after the resize and after each later operation; Series payload columns by Python-side probes')
     trusted_base = CORE_TRUST
-    assumptions = CORE_ASSUME
+    assumptions = CORE_ASSUME + ['tables that hold a row twice (dm[[0, 2, 2]]: duplicate row ids, outside the Coq model) and '
+                                 'lengths given as NumPy integers are probed on the Python side (positional list model / '
+                                 'a twin resized with the Python int)']
 
     def generate(self, rng, tier):
         return super().generate(rng, tier) + self.direct_probes(rng, 60 if tier == 'quick' else 600)
 
     def direct_probes(self, rng, n):
-        return series_payload_probes(rng, n, 'C07') + series_default_probes(rng, max(20, n // 3))
+        return (series_payload_probes(rng, n, 'C07') + series_default_probes(rng, max(20, n // 3))
+                + resize_positional_probes(rng, max(30, n // 2)))
 
 
 class C08(HistProp):
@@ -667,7 +1291,8 @@ class C09(ProbeMixin, HistProp):
     rule = ('concatenation-heavy histories: a << b on pairs from the pool (related, unrelated, identical, empty, '
             'reordered; same-name columns of equal and of different type), then selection, merging, resizing and '
             'assignment on the result; result table vs Spec.step, operands via the frame check; plus direct probes '
-            'for Row and dict operands and for Series columns of different depth (Python-side)')
+            'for Row and dict operands, for Series columns of different depth and for a name that is a plain column '
+            'on one side and a SeriesColumn on the other (TypeError, operands unchanged) (Python-side)')
     trusted_base = CORE_TRUST
     assumptions = CORE_ASSUME
 
@@ -685,7 +1310,8 @@ class C09(ProbeMixin, HistProp):
             sub = random.Random(rng.randrange(1 << 30))
             problem = None
             kind = sub.choice(['row', 'row_neg', 'row_sorted', 'dict', 'series', 'reused_row', 'dict_columns', 'series_zero',
-                               'last_row_follows', 'dict_default_type'])
+                               'last_row_follows', 'dict_default_type', 'plain_vs_series', 'plain_vs_series'])
+            r = None
             with warnings.catch_warnings():
                 warnings.simplefilter('ignore')
                 try:
@@ -786,6 +1412,50 @@ class C09(ProbeMixin, HistProp):
                         r.length = 8
                         if not (np.array(r.s._seq)[7] == 0).all() or not (np.array(r.t._seq)[7] == 0).all():
                             problem = 'a zero-default series column grew with %r' % (np.array(r.s._seq)[7].tolist(),)
+                    elif kind == 'plain_vs_series':
+                        # one name, a plain column on one side and a SeriesColumn on the other (table, Row or dict as right
+                        # operand, either order, empty operands, relatives): TypeError, and neither operand changes
+                        from datamatrix import MixedColumn
+                        T = sub.choice([MixedColumn, FloatColumn, IntColumn])
+                        name = sub.choice(['trace', 'x'])       # 'x' exists on both sides already (Mixed there)
+                        depth = sub.randint(1, 4)
+                        a[name] = T
+                        a[name] = 10, 20, 30
+                        if name in b:
+                            del b[name]
+                        b[name] = SeriesColumn(depth=depth, defaultnan=sub.random() < 0.7)
+                        for i in range(4):
+                            b[name][i] = [i + 1] * depth
+                        if sub.random() < 0.3:
+                            b[name].depth = depth + 1
+                        if sub.random() < 0.3:
+                            b = ops.sort(b, by=b.z)
+                        if sub.random() < 0.3:
+                            a = a.y != 'q'
+
+                        def snap(t):
+                            return [(n_, type(c).__name__, getattr(c, 'depth', None), repr(np.array(c._seq, dtype=object).tolist()),
+                                     c.dm is t) for n_, c in t.columns] + [list(t._rowid)]
+                        ia, ib = sub.randrange(len(a)), sub.randrange(len(b))
+                        attempts = [('plain << series', lambda: a << b), ('series << plain', lambda: b << a),
+                                    ('plain << Row with series', lambda: a << b[ib]), ('series << Row with plain', lambda: b << a[ia]),
+                                    ('series << dict', lambda: b << {name: [1, 2]}),
+                                    ('plain << empty relative with series', lambda: a << b[:0]),
+                                    ('empty plain << series', lambda: a[:0] << b), ('empty series << plain', lambda: b[:0] << a),
+                                    ('plain << (series << series)', lambda: a << (b << b))]
+                        before = snap(a), snap(b)
+                        for label, f in attempts:
+                            try:
+                                res = f()
+                                problem = problem or '%s (%s named %s): no exception, result column %s %r' % (
+                                    label, T.__name__, name, type(res[name]).__name__, np.array(res[name]._seq, dtype=object).tolist())
+                            except TypeError:
+                                pass
+                            except Exception as e:      # noqa: BLE001
+                                problem = problem or '%s (%s named %s) raised %r instead of TypeError' % (label, T.__name__, name, e)
+                            if (snap(a), snap(b)) != before:
+                                problem = problem or 'the refused %s changed an operand' % label
+                                break
                     elif kind == 'dict':
                         r = a << {'x': [7, '8'], 'w': ['u', 2.0]}
                         if list(r.x) != [1, 2, 3, 7, 8] or list(r.w) != ['', '', '', 'u', 2] or list(r.y) != ['p', 'q', 'r', '', '']:
@@ -807,7 +1477,7 @@ class C09(ProbeMixin, HistProp):
                             problem = 'series depths %d << %d: depth %r, cells %r' % (da, db, r.s.depth, got.tolist())
                         if a.s.depth != da or b.s.depth != db:
                             problem = 'a << b changed the depth of an operand'
-                    if problem is None and (r._id == a._id or r._id == b._id):
+                    if problem is None and r is not None and (r._id == a._id or r._id == b._id):
                         problem = 'the result of << shares its family with an operand'
                 except Exception as e:      # noqa: BLE001
                     problem = 'probe %s raised %r' % (kind, e)
@@ -829,7 +1499,8 @@ class C11(ProbeMixin, HistProp):
             'populated), k in 0..len+1, followed by typed-column creation, selections, merges and selection-addressed '
             'writes on the result; the permutation / choice made by `random` is read off the result, validated in Coq '
             '(permutation of the row range / k distinct positions) and the result compared with Spec.step; plus direct '
-            'probes for ops.shuffle / random_sample on columns and shuffle_horiz, and 20 seeds must give >= 2 orders')
+            'probes for ops.shuffle / random_sample on columns and shuffle_horiz (incl. series columns whose depth was '
+            'reduced / grown: source unchanged, also after writes into the result), and 20 seeds must give >= 2 orders')
     trusted_base = CORE_TRUST
     assumptions = CORE_ASSUME + ['"repeated shuffles produce more than one order" is a statement about the RNG: tested, not proved']
 
@@ -845,8 +1516,8 @@ class C11(ProbeMixin, HistProp):
         for k in range(n):
             sub = random.Random(rng.randrange(1 << 30))
             kind = sub.choice(['shuffle_col', 'sample_col', 'shuffle_horiz', 'shuffle_horiz_one', 'orders', 'sample_err',
-                               'shuffle_col_key', 'sample_col_key', 'shuffle_horiz_series', 'shuffle_series_col',
-                               'sample_series_col'])
+                               'shuffle_col_key', 'sample_col_key', 'shuffle_horiz_series', 'shuffle_horiz_series',
+                               'shuffle_series_col', 'sample_series_col'])
             problem = None
             with warnings.catch_warnings():
                 warnings.simplefilter('ignore')
@@ -904,43 +1575,81 @@ class C11(ProbeMixin, HistProp):
                             srcvals = before[{'a': 0, 'f': 2, 'u': 3}[src_col]]
                             if [srcvals[before[3].index(u)] for u in sel.u] != [v]:
                                 problem = 'sampled column == %r selected the rows u=%r' % (v, list(sel.u))
-                    elif kind in ('shuffle_series_col', 'sample_series_col'):
-                        # a SeriesColumn shuffled / sampled AS A COLUMN: its rows (whole series) are rearranged, none
-                        # duplicated or lost, and the source is unchanged
+                    elif kind in ('shuffle_series_col', 'sample_series_col', 'shuffle_horiz_series'):
+                        # SeriesColumns shuffled / sampled AS COLUMNS (whole series are rearranged, none duplicated or lost)
+                        # and shuffle_horiz over series columns (per row, the series are permuted among the columns); the
+                        # buffer of a series column is a view after its depth was reduced, a padded copy after it was
+                        # grown: in every such state the SOURCE table is unchanged afterwards, also after a write into
+                        # the result
                         from datamatrix import SeriesColumn
+                        import numpy as np
                         d0 = dm[:]
-                        d0.s = SeriesColumn(depth=sub.randint(1, 3))
-                        for i in range(5):
-                            d0.s[i] = [10 * (i + 1) + j for j in range(d0.s.depth)]
-                        src_rows = [tuple(float(x) for x in d0.s[i]) for i in range(5)]
-                        if kind == 'shuffle_series_col':
-                            c = ops.shuffle(d0.s)
-                            got = [tuple(float(x) for x in c[i]) for i in range(len(c))]
-                            if sorted(got) != sorted(src_rows):
-                                problem = 'shuffle(series column) is not a rearrangement of its rows: %r' % (got,)
+                        depth = sub.randint(1, 4)
+                        names = ['s', 't'] if kind == 'shuffle_horiz_series' else ['s']
+                        if kind == 'shuffle_horiz_series' and sub.random() < 0.3:
+                            names.append('w')
+                        hist = {}
+                        for ci, cn in enumerate(names):
+                            how = sub.choice(['plain', 'reduced', 'reduced', 'grown', 'shrunk_grown', 'grown_reduced'])
+                            hist[cn] = how
+                            start = {'plain': depth, 'reduced': depth + sub.randint(1, 2), 'grown': max(1, depth - 1),
+                                     'shrunk_grown': depth + 1, 'grown_reduced': max(1, depth - 1)}[how]
+                            d0[cn] = SeriesColumn(depth=start, defaultnan=sub.random() < 0.8)
+                            for i in range(5):
+                                d0[cn][i] = [(ci + 1) * 100 + 10 * (i + 1) + j for j in range(start)]
+                            if how == 'shrunk_grown':
+                                d0[cn].depth = max(1, depth - 1)
+                            elif how == 'grown_reduced':
+                                d0[cn].depth = depth + 2
+                            d0[cn].depth = depth
+                            if sub.random() < 0.3:
+                                d0[cn][sub.randrange(5), 0] = -5.0 - ci       # a write after the depth change
+
+                        def rows_of(col):
+                            return [tuple('nan' if x != x else float(x) for x in col[i]) for i in range(len(col))]
+
+                        def source():
+                            return [(cn, d0[cn].depth, tuple(d0[cn]._seq.shape), rows_of(d0[cn]), d0[cn].dm is d0) for cn in names] + \
+                                [list(d0.a), list(d0.b), list(d0.f), list(d0.u), list(d0._rowid)]
+                        src = source()
+                        src_rows = {cn: rows_of(d0[cn]) for cn in names}
+                        label = '%s, series columns %r of depth %d' % (kind, hist, depth)
+                        if kind == 'shuffle_horiz_series':
+                            for _rep in range(2):
+                                d2 = ops.shuffle_horiz(*[d0[cn] for cn in names])
+                                for i in range(5):
+                                    got = sorted(repr(rows_of(d2[cn])[i]) for cn in names)
+                                    if got != sorted(repr(src_rows[cn][i]) for cn in names):
+                                        problem = problem or '%s: row %d of the result holds %r, the source %r' % (
+                                            label, i, got, [src_rows[cn][i] for cn in names])
+                                if list(d2.a) != before[0] or list(d2.u) != before[3] or list(d2.f) != before[2]:
+                                    problem = problem or '%s touched other cells' % label
+                                if source() != src:
+                                    problem = problem or '%s changed the source table: %r -> %r' % (label, src[:len(names)], source()[:len(names)])
+                                d2[names[0]][0] = -77
+                                d2.length = 6
+                                if source() != src:
+                                    problem = problem or '%s: a write into the result changed the source table' % label
                         else:
-                            kk = sub.randint(0, 5)
-                            c = ops.random_sample(d0.s, kk)
-                            got = [tuple(float(x) for x in c[i]) for i in range(len(c))]
-                            if len(got) != kk or len(set(got)) != kk or not set(got) <= set(src_rows):
-                                problem = 'random_sample(series column, %d) -> %r' % (kk, got)
-                        if [tuple(float(x) for x in d0.s[i]) for i in range(5)] != src_rows:
-                            problem = problem or 'shuffling / sampling a series column changed the source'
-                    elif kind == 'shuffle_horiz_series':
-                        from datamatrix import SeriesColumn
-                        d0 = dm[:]
-                        d0.s = SeriesColumn(depth=2)
-                        d0.t = SeriesColumn(depth=2)
-                        for i in range(5):
-                            d0.s[i] = [i + 1, i + 1]
-                            d0.t[i] = [(i + 1) * 10, (i + 1) * 10]
-                        d2 = ops.shuffle_horiz(d0.s, d0.t)
-                        for i in range(5):
-                            got = sorted([tuple(d2.s[i]), tuple(d2.t[i])])
-                            if got != sorted([(i + 1.0, i + 1.0), ((i + 1) * 10.0, (i + 1) * 10.0)]):
-                                problem = 'shuffle_horiz of two series columns: row %d holds %r' % (i, got)
-                        if list(d2.a) != before[0] or list(d0.s[2]) != [3, 3]:
-                            problem = problem or 'shuffle_horiz of series columns touched other cells'
+                            if kind == 'shuffle_series_col':
+                                c = ops.shuffle(d0.s)
+                                got = rows_of(c)
+                                if sorted(map(repr, got)) != sorted(map(repr, src_rows['s'])):
+                                    problem = '%s: not a rearrangement of its rows: %r' % (label, got)
+                            else:
+                                kk = sub.randint(0, 5)
+                                c = ops.random_sample(d0.s, kk)
+                                got = rows_of(c)
+                                if len(got) != kk or len(set(got)) != kk or not set(got) <= set(src_rows['s']):
+                                    problem = '%s: random_sample(column, %d) -> %r' % (label, kk, got)
+                            if source() != src:
+                                problem = problem or '%s changed the source' % label
+                            if len(c):
+                                c[0] = -77
+                                if depth:
+                                    c[len(c) - 1, depth - 1] = -78
+                            if source() != src:
+                                problem = problem or '%s: a write into the result changed the source' % label
                     elif kind == 'sample_err':
                         try:
                             ops.random_sample(dm if sub.random() < 0.5 else dm.a, 6)
